@@ -384,6 +384,10 @@ def strided_view(x, how):
     return v
 
 
+class NotCopyable(Exception):
+    pass
+
+
 def clone_routes(obj):
     """[(how, copy of obj)]: `copy.deepcopy` and a pickle round trip.  A copy of a library object is a library object
     with the same configuration: everything a property says about "any computer / bank / processor" holds for it.  Code
